@@ -1,7 +1,8 @@
 """C12 -- confidence bands follow their definitions, bracket the winner, only add bands.
 
 T-corr: the extracted model (Model/Confidence.v: ambiguity, percentile normalisation, risk, interval
-        bounds, regularisation, std variance, band bookkeeping, indicator naming, WTA) against the
+        bounds, regularisation, std band (variance, NaN border), band bookkeeping, indicator naming, WTA; and
+        Model/ConfPipeline.v: the stacked confidence steps followed by the wta disparity step on the whole state) against the
         real code, driven through PandoraMachine.cost_volume_confidence_run (which sets the indicator
         suffix and calls AbstractCostVolumeConfidence(**cfg).confidence_prediction) on hand-built cost
         volume datasets of the exact domain (cost span a power of two), several steps stacked.
@@ -27,7 +28,8 @@ RULE = ("kernel stream: cost volumes 3..6 x 3..8 x 2..7 (plus 1..2-pixel volumes
         "of two, NaN holes, all-NaN pixels, ties, min and max measures, integer or sub-pixel disparity axis, "
         "eta_max/eta_step in {0.7/0.01, 0.5/0.125, 0.3/0.1}, thresholds {0.5, 0.9, 1.0}, 1-5 stacked confidence "
         "steps (ambiguity normalised or not, risk, interval_bounds with/without regularisation, std_intensity) in "
-        "random order with random suffixes on cv/disp datasets with or without earlier bands; a case is "
+        "random order with random suffixes on cv/disp datasets with or without earlier bands, left image with NaN "
+        "pixels in 20% of the cases; a case is "
         "non-trivial when the volume has >= 2 distinct finite costs and >= 1 step ran; distinct by (volume, "
         "measure, steps). pipeline stream: random accepted pipelines on small image pairs (sad/census/zncc) run "
         "with and without their confidence steps")
@@ -43,9 +45,16 @@ ASSUMES = [
     "selected set); numba's nanquantile / numpy's percentile by linear interpolation between order statistics",
     "std_intensity: the model band holds the window variance (the square root is not rational); band^2 is "
     "compared with it (NaN pattern exactly); the float 10**-15 of the tiny-variance zeroing is data",
-    "confidence_steps_transparent is proved over abstract step functions (non-confidence steps do not read the "
-    "confidence bands to produce cost volume / disparity / mask); on the real code it is checked by impl-vs-impl "
-    "pipeline runs, not proved",
+    "transparency: proved for abstract steps (C12_confidence_steps_transparent) and instantiated "
+    "(C12_confidence_transparent_builtin) for the whole-state model of Model/ConfPipeline.v: the four confidence "
+    "methods, wta disparity (Model/Wta.v), cbca aggregation (Model/Cbca.v), refinement (Model/Refine.v). The "
+    "confidence-steps-then-wta part of that model is compared with the real datasets on every kernel case (fid 12: "
+    "disparity map, mask, names and values of all bands of both datasets); the glue around the cbca and refinement "
+    "kernels (conversion of array representations) is NOT exercised by a correspondence; filter, validation, "
+    "optimization, multiscale, semantic segmentation and the matching cost have no instance: for them, and for "
+    "everything on the real code, transparency is checked by impl-vs-impl pipeline runs, not proved",
+    "std_intensity on an image with NaN pixels: the model follows np.nancumsum (NaN counts as 0, in the image and in "
+    "its square); the oracle of the property is applied only to windows without a NaN pixel",
 ]
 TRUSTED = ["numpy/xarray primitives used by allocate_confidence_map (np.append, drop_dims, DataArray construction) "
            "are observed through the datasets they produce"]
